@@ -15,15 +15,22 @@ CFGS = {
     "t_cyl_free2": ("cyl", 4, 4, 0, 4, 4, 16, "free", "{0}", 1),
     "t_cylp_free2": ("cyl", 4, 4, 1, 4, 4, 16, "free", "{0}", 1),
     "t_cylp_free3": ("cyl", 2, 6, 1, 4, 4, 16, "free", "{0}", 1),
+    "t_cylp_free4": ("cyl", 3, 6, 1, 4, 4, 16, "free", "{0}", 1),
+    # the implementation before the repair of F18 (refuted by TLC): closed central filter / one-period span rule
+    "dev_cylp_closed": ("cyl", 3, 3, 1, 4, 4, 16, "free", "{0}", 1, "closed", "whole"),
+    "dev_cylp_span": ("cyl", 3, 6, 1, 4, 4, 16, "free", "{0}", 1, "halfopen", "one-period"),
     "t_cyl_ren": ("cyl", 6, 12, 0, 4, 8, 16, "render", "{144, 150, 170, 200, 256, 300}", 1),
     "t_cylp_ren": ("cyl", 6, 12, 1, 8, 4, 17, "render", "{144, 150, 170, 200, 256, 300}", 1),
 }
-for name, (fam, nr, nz, pz, dr, dz, z0, mode, r2s, zstep) in CFGS.items():
+for name, v in CFGS.items():
+    fam, nr, nz, pz, dr, dz, z0, mode, r2s, zstep = v[:10]
+    central, span = (v[10], v[11]) if len(v) > 10 else ("halfopen", "whole")
     open(f"MC_LocateSym_{name}.cfg", "w").write(
         "SPECIFICATION Spec\nCONSTANTS\n  N <- NC\n  P <- PC\n  Z0 <- Z0C\n"
         f'  Family = "{fam}"\n  NrC = {nr}\n  NzC = {nz}\n  PZC = {"TRUE" if pz else "FALSE"}\n'
         f"  DR = {dr}\n  DZ = {dz}\n  Z0P = {z0}\n  Mode = \"{mode}\"\n  R2S <- R2Sdef_{name}\n  ZStep = {zstep}\n"
-        "INVARIANT SingleCorrect\nINVARIANT PeriodicCorrect\nINVARIANT NoAxisNoDroplet\nINVARIANT RadialCorrect\n"
+        f"  CentralRule = \"{central}\"\n  SpanRule = \"{span}\"\n"
+        "INVARIANT SingleCorrect\nINVARIANT PeriodicCorrect\nINVARIANT SpanSound\nINVARIANT NoAxisNoDroplet\nINVARIANT RadialCorrect\n"
         "INVARIANT RadialHalfCell\nINVARIANT CylOne\nINVARIANT Emit\nPROPERTY MaskIntact\nPROPERTY Termination\n"
     )
 # R2S cannot hold ranges in a cfg either: emit definitions into the MC module
